@@ -33,6 +33,7 @@ ASSUMPTIONS = [
 SHARDS = {"quick": 6, "thorough": 16}
 MIN_REACH = {
     "roundtrips": {"quick": 250, "thorough": 4000},
+    "datasets_without_data_variables": {"quick": 8, "thorough": 120},
     "lazy_loads": {"quick": 60, "thorough": 1000},
     "merge_twice": {"quick": 50, "thorough": 800},
     "harvester_syncs_with_a_per_call_engine": {"quick": 20, "thorough": 300},
@@ -64,6 +65,8 @@ def cases(ctx):
         sizes = {d: rng.randint(1, 4) for d in dims}
         coordt = {d: rng.choice(["int", "float", "str", "none"]) for d in dims}
         nvars = rng.randint(1, 4)
+        if i % 9 == 4:
+            nvars = 0       # a dataset of coordinates (and attributes) only: a grid prepared in advance, a blank file
         vs = []
         for j in range(nvars):
             k = rng.randint(0, nd)
@@ -272,6 +275,23 @@ def run_case(ctx, case):
                 bad.append(("roundtrip", "load_ds(..., create_new=True) of an existing file differs from what was saved: " + d))
             if hasattr(back2, "close"):
                 back2.close()
+            if case["dseed"] % 2 == 0 or not case["vars"]:
+                # what the default load returned is in memory: the file is free again and the same name can be written
+                # over (how save_merge_ds and a Harvester use load_ds)
+                ctx.count("saves_over_a_file_just_loaded_by_default")
+                ctx.count("datasets_without_data_variables", 0 if case["vars"] else 1)
+                try:
+                    with quiet():
+                        xyzpy.save_ds(ds, path, engine=engine)
+                        back4 = xyzpy.load_ds(path, engine=engine)
+                    d = judge_equal(orig, back4, engine)
+                    if d:
+                        bad.append(("roundtrip", "saved over the file just loaded and loaded again: differs: " + d))
+                except Exception as e:
+                    bad.append(("no-exception", "saving over the file that a default load_ds had just read raised %r" % (e,)))
+                    if hasattr(back, "close"):
+                        back.close()
+                listing_ok("save_ds over the file just loaded")
             if case["dseed"] % 3 == 2:
                 # loading into memory asked for explicitly: same dataset, and (being in memory) it does not keep the file
                 # busy - saving to the same name afterwards works as after the default load
